@@ -39,7 +39,7 @@ var props = map[string]*propDef{
 		level: "fault_enumeration", engine: "gensim",
 		rule:    "each simulation draws a module and scripted generators (declaration pool with comments, odd whitespace, std and in-module references, new named types), runs it fault-free (F1-F6 on every written file: go/parser, header comment, package name, token-for-token comparison with the rendered declarations, gofmt and gofumpt fixed points) and then re-runs it once per enumerated I/O failure point of the recorded trace (every write-open of every output file and of gengo.sum with 3-6 errnos, first/last/middle/random writes with ENOSPC/EIO/EDQUOT and a short count, every remove); distinct = distinct (world, failure point); non-trivial = the fault fired",
 		sims:    map[string]int{"quick": 24, "thorough": 3000},
-		budget:  map[string]time.Duration{"quick": 45 * time.Second, "thorough": 15 * time.Minute},
+		budget:  map[string]time.Duration{"quick": 30 * time.Second, "thorough": 15 * time.Minute},
 		explore: func(c *sim.CheckCtx) { c.Explore("c01", sim.SimC01) },
 	},
 	"C02": {
